@@ -161,6 +161,11 @@ def iter_next(it, obj):
             if r.var == 0: return r
         return iter_next(it, obj.it)
     if t is TakeIter:
+        if is_sym(obj.n):
+            # symbolic count (e.g. `iter().take(sp)` with a symbolic stack pointer): decide n == 0, then count down symbolically
+            if it.branch(obj.n == 0): return mk_none()
+            obj.n = z3.simplify(obj.n - 1)
+            return iter_next(it, obj.it)
         if obj.n <= 0: return mk_none()
         obj.n -= 1
         return iter_next(it, obj.it)
@@ -830,6 +835,9 @@ def install(prog):
 
     @M(r'<.* as Iterator>::cloned::<.*>|<.* as Iterator>::copied::<.*>|<.* as Iterator>::cloned|<.* as Iterator>::copied')
     def _(it, m, a): return ClonedIter(a[0])
+
+    @M(r'<.* as Iterator>::inspect::<.*>')
+    def _(it, m, a): return a[0]          # inspect closures in marwood are `trace!` calls (logging only): passed through
 
     @M(r'<.* as Iterator>::skip')
     def _(it, m, a): return SkipIter(a[0], a[1])
